@@ -15,7 +15,7 @@ func init() {
 	mc.Register(&mc.Property{
 		ID:    "C04",
 		Title: "Sources are drawn in declared order",
-		Rule: "all single-send scripts `send $amt|[USD *] (source = S destination = @x)` with S any source tree within the stage's weight/depth bound over leaves {@a,@b,@world,$v, a/b with bounded overdraft, a/b unbounded}, caps, in-order lists, allotments x all balance sheets x all amounts x all values of $v; " +
+		Rule: "all single-send scripts `send $amt|[USD *] (source = S destination = @x)` with S any source tree within the stage's weight/depth bound over leaves {@a,@b,@world,$v, a/b with bounded overdraft, a/b unbounded}, caps, in-order lists, allotments x all balance sheets x all amounts x all values of $v; (c) the shared small alphabets: statements taking amounts / caps / bounds / portions from variables incl. arithmetic on them (vars-L*), statements about edge relations - overdraft bound 0 or negative, an account paying itself, sources after a capped @world, an account named world:fees, saving exactly the balance (edge-L*), statements over two assets with amounts and accounts from balance() / overdraft() / meta() variables (origin-L*); " +
 			"oracle: per-account debit totals == reference greedy draw, send-all rejections; non-trivial = the reference draw succeeded with >= 2 contributing accounts or a binding cap/balance limit, or a send-all rejection; distinct = script text + inputs",
 		Assumptions: []string{
 			"destination fixed to @x so that debits are the draws; amounts enter through the monetary variable $amt (literal amounts are covered by C03/C15)",
